@@ -49,6 +49,87 @@ T = [
  ("C18", 2, "demo2.py", None, "python3 /tmp/seed/C18-out/demo2.py /tmp/seed/C18", ["C18"]),
 ]
 
+# second round (harder, rarer changes): key, worktree id, k, [(demo file, destination)], run command, checks
+T2 = [
+ ("R2_C14_1", "C14", 1, [("demo1.rs", "solver/tests/c14_demo1.rs")], "cargo test -p solver --offline --test c14_demo1 -- --test-threads=1", ["C14", "C17"]),
+ ("R2_C14_2", "C14", 2, [("demo2.rs", "solver/tests/c14_demo2.rs")], "cargo test -p solver --offline --test c14_demo2 -- --test-threads=1", ["C14"]),
+ ("R2_C01_3", "C14", 3, [("demo3.rs", "server/tests/c01_demo3.rs")], "cargo test -p server --offline --test c01_demo3 -- --test-threads=1", ["C01", "C17"]),
+ ("R2_C13_1", "C13", 1, [("demo1.rs", "solution/tests/demo1.rs")], "cargo test -p solution --offline --test demo1", ["C13", "C10"]),
+ ("R2_C11_2", "C13", 2, [("demo2.rs", "solver/tests/demo2.rs")], "cargo test -p solver --offline --test demo2", ["C11", "C09", "C15"]),
+ ("R2_C13_3", "C13", 3, [("demo3.rs", "solution/tests/demo3.rs")], "cargo test -p solution --offline --test demo3", ["C13", "C10", "C11"]),
+ ("R2_C18_1", "C18", 1, [], "python3 /tmp/seed/C18-out/demo1.py /tmp/seed/C18", ["C18"]),
+ ("R2_C18_2", "C18", 2, [], "python3 /tmp/seed/C18-out/demo2.py /tmp/seed/C18", ["C18"]),
+ ("R2_C10_3", "C18", 3, [("demo3.rs", "solution/tests/demo3.rs")], "cargo test --offline -p solution --test demo3", ["C10", "C13"]),
+ ("R2_C08_1", "C08", 1, [("demo1.rs", "server/tests/c08_demo1.rs")], "cargo test -p server --features verif --offline --release --test c08_demo1", ["C08"]),
+ ("R2_C08_2", "C08", 2, [("demo2.rs", "server/tests/c08_demo2.rs")], "cargo test -p server --features verif --offline --release --test c08_demo2", ["C08", "C04"]),
+ ("R2_C16_1", "C16", 1, [("demo1.rs", "server/tests/demo1.rs"), ("demo1.json", "server/tests/demo1.json")], "cargo test -p server --features verif --offline --test demo1", ["C16"]),
+ ("R2_C05_2", "C16", 2, [("demo2.rs", "server/tests/demo2.rs"), ("demo2.json", "server/tests/demo2.json")], "cargo test -p server --offline --test demo2", ["C05", "C16", "C13"]),
+ ("R2_C04_1", "C04", 1, [], "true", ["C04", "C09", "C15"]),
+ ("R2_C04_2", "C04", 2, [], "true", ["C04", "C09", "C15"]),
+]
+
+def confirm2(only):
+    path = "/verif/notes/seeded2_confirm.json"
+    res = json.load(open(path)) if os.path.exists(path) else {}
+    for (key, wtid, k, demos, cmd, _checks) in T2:
+        if only and key not in only:
+            continue
+        wt = "%s/%s" % (SRC, wtid); out = "%s/%s-out" % (SRC, wtid)
+        diff = "%s/change%d.diff" % (out, k)
+        if not os.path.exists(diff):
+            res[key] = {"error": "no diff"}; print(key, res[key]); continue
+        sh("git checkout -- . && git clean -fdq -e target -e Cargo.lock -e output", cwd=wt)
+        rc, o = sh("git apply %s" % diff, cwd=wt)
+        if rc != 0:
+            res[key] = {"error": "patch does not apply"}; print(key, res[key]); continue
+        rc_t, o_t = sh("cargo test --workspace --offline 2>&1 | grep -E 'test result|^error' ", cwd=wt)
+        tests_pass = ("FAILED" not in o_t) and ("error" not in o_t) and ("51 passed" in o_t)
+        for (d, dest) in demos:
+            os.makedirs(os.path.dirname(os.path.join(wt, dest)), exist_ok=True)
+            shutil.copy(os.path.join(out, d), os.path.join(wt, dest))
+        rc_with, o_with = sh(cmd, cwd=wt, timeout=2400)
+        sh("git checkout -- .", cwd=wt)
+        rc_without, o_without = sh(cmd, cwd=wt, timeout=2400)
+        for (d, dest) in demos:
+            os.remove(os.path.join(wt, dest))
+        sh("git checkout -- . && git clean -fdq -e target -e Cargo.lock -e output", cwd=wt)
+        res[key] = {"tests_pass_with_change": tests_pass, "demo_exit_with_change": rc_with, "demo_exit_without_change": rc_without,
+                    "confirmed": bool(tests_pass and rc_with != 0 and rc_without == 0), "demo_cmd": cmd, "demo_tail_with_change": o_with[-400:]}
+        print(key, {k2: v for k2, v in res[key].items() if k2 not in ("demo_tail_with_change", "demo_cmd")}, flush=True)
+        json.dump(res, open(path, "w"), indent=1)
+
+def detect2(only):
+    path = "/verif/notes/seeded2_detect.json"
+    res = json.load(open(path)) if os.path.exists(path) else {}
+    if sh("git -C /repo diff --quiet")[0] != 0:
+        print("/repo dirty"); sys.exit(2)
+    for (key, wtid, k, demos, cmd, checks) in T2:
+        if only and key not in only:
+            continue
+        diff = "%s/%s-out/change%d.diff" % (SRC, wtid, k)
+        if not os.path.exists(diff):
+            diff = "/verif/seeded/%s/patch.diff" % key
+        if not os.path.exists(diff):
+            print(key, "no diff"); continue
+        rc, o = sh("git -C /repo apply %s" % diff)
+        if rc != 0:
+            res[key] = {"error": "patch does not apply"}; print(key, res[key]); continue
+        try:
+            verdicts = {}
+            for c in checks:
+                t0 = time.time()
+                rc, o = sh("cd /verif && ./check %s %s" % (c, os.environ.get("SEEDED_ARGS", "")), timeout=6000)
+                lines = o.splitlines(); first = ""
+                for i, l in enumerate(lines):
+                    if l.startswith("VIOLATION") and i + 1 < len(lines):
+                        first = lines[i + 1].strip()[:260]; break
+                verdicts[c] = {"exit": rc, "first": first, "secs": round(time.time() - t0, 1)}
+            res[key] = {"checks": verdicts, "caught_by": [c for c, v in verdicts.items() if v["exit"] == 1], "args": os.environ.get("SEEDED_ARGS", "")}
+            print(key, "caught_by=%s" % res[key]["caught_by"], {c: v["exit"] for c, v in verdicts.items()}, flush=True)
+        finally:
+            sh("git -C /repo checkout -- .")
+        json.dump(res, open(path, "w"), indent=1)
+
 def sh(cmd, cwd=None, timeout=3600):
     try:
         r = subprocess.run(cmd, shell=True, capture_output=True, text=True, cwd=cwd, timeout=timeout)
@@ -124,4 +205,4 @@ def detect(only):
 if __name__ == "__main__":
     mode = sys.argv[1]
     only = set(sys.argv[2:])
-    (confirm if mode == "confirm" else detect)(only)
+    {"confirm": confirm, "detect": detect, "confirm2": confirm2, "detect2": detect2}[mode](only)
